@@ -126,6 +126,96 @@ def _sweep_rule(loop, var, table, remover, subst, consts):
     return term, [b[2] for b in branches]
 
 
+# ------------------------------------------------------------------------------------------- do_circuits
+def _do_circuits_skeleton(fn):
+    """The control flow of the interval task, with the outcomes of create_circuit and the truth of num_to_build as
+    oracles: `for .. in circuits_needed.items(): num_to_build = ..; if not num_to_build: continue; for _ in
+    range(num_to_build): if not self.create_circuit(..): <break|continue|return>` followed by statements among which
+    self.do_remove().  Emits the two loop bodies as signal-valued Gallina terms and `do_circuits_sweeps`: whether the
+    call of do_remove is reached.  break / continue / return anywhere in the bodies are translated, not rejected."""
+    body = _strip_logging(fn.body)
+    loops = [s for s in body if isinstance(s, ast.For)]
+    if len(loops) != 1 or body.index(loops[0]) != 0:
+        raise Unsupported("do_circuits: expected one demand loop as first statement")
+    outer = loops[0]
+    if ast.unparse(outer.iter) != "self.circuits_needed.items()" or outer.orelse:
+        raise Unsupported("do_circuits: unexpected demand loop %s" % ast.unparse(outer.iter))
+    inner_def = []
+
+    def cond(test, in_inner):
+        t = ast.unparse(test)
+        if t == "not num_to_build":
+            return "(negb nb)"
+        if t == "num_to_build":
+            return "nb"
+        if in_inner and t.startswith("not self.create_circuit("):
+            return "(negb ok)"
+        if in_inner and t.startswith("self.create_circuit("):
+            return "ok"
+        raise Unsupported("do_circuits: unsupported condition %s" % t)
+
+    def block(stmts, in_inner, in_outer):
+        if not stmts:
+            return "SNormal"
+        st, rest = stmts[0], stmts[1:]
+        if isinstance(st, ast.Pass):
+            return block(rest, in_inner, in_outer)
+        if isinstance(st, ast.Break):
+            return "SBreak"
+        if isinstance(st, ast.Continue):
+            return "SContinue"
+        if isinstance(st, ast.Return):
+            return "SReturn"
+        if isinstance(st, ast.Assign) and ast.unparse(st.targets[0]) == "num_to_build" and not in_inner:
+            return block(rest, in_inner, in_outer)
+        if isinstance(st, ast.Expr) and isinstance(st.value, ast.Call) and ast.unparse(st.value.func) == "self.create_circuit" \
+                and in_inner:
+            return block(rest, in_inner, in_outer)
+        if isinstance(st, ast.If):
+            c = cond(st.test, in_inner)
+            th, el = block(st.body, in_inner, in_outer), block(st.orelse, in_inner, in_outer)
+            return "(match (if %s then %s else %s) with SNormal => %s | sg_ => sg_ end)" % (c, th, el,
+                                                                                           block(rest, in_inner, in_outer))
+        if isinstance(st, ast.For) and in_outer and not in_inner:
+            if ast.unparse(st.iter) != "range(num_to_build)" or st.orelse or inner_def:
+                raise Unsupported("do_circuits: unexpected inner loop %s" % ast.unparse(st.iter))
+            inner_def.append(block(_strip_logging(st.body), True, True))
+            return "(match dc_inner rs with SReturn => SReturn | _ => %s end)" % block(rest, in_inner, in_outer)
+        raise Unsupported("do_circuits: unsupported statement %s" % ast.unparse(st).split("\n")[0])
+
+    outer_term = block(_strip_logging(outer.body), False, True)
+    if not inner_def:
+        raise Unsupported("do_circuits: create loop not found")
+    tail = [ast.unparse(x) for x in body[1:]]
+    reached = "true" if "self.do_remove()" in tail else "false"
+    for x in body[1:]:
+        if ast.unparse(x) == "self.do_remove()":
+            break
+        if not (isinstance(x, ast.Expr) and isinstance(x.value, ast.Call)):
+            raise Unsupported("do_circuits: unsupported statement before do_remove: %s" % ast.unparse(x))
+    return [
+        "(* control skeleton of do_circuits: signals of a statement block *)",
+        "Inductive sig09 := SNormal | SBreak | SContinue | SReturn.",
+        "(* body of `for _ in range(num_to_build)`; ok = what create_circuit answered *)",
+        "Definition dc_inner_body (ok : bool) : sig09 :=\n  %s." % inner_def[0],
+        "Fixpoint dc_inner (rs : list bool) : sig09 :=",
+        "  match rs with",
+        "  | [] => SNormal",
+        "  | ok :: tl => match dc_inner_body ok with SBreak => SNormal | SReturn => SReturn | _ => dc_inner tl end",
+        "  end.",
+        "(* body of the demand loop; nb = num_to_build is not zero, rs = answers of create_circuit in that round *)",
+        "Definition dc_outer_body (nb : bool) (rs : list bool) : sig09 :=\n  %s." % outer_term,
+        "Fixpoint dc_outer (ds : list (bool * list bool)) : sig09 :=",
+        "  match ds with",
+        "  | [] => SNormal",
+        "  | (nb, rs) :: tl => match dc_outer_body nb rs with SBreak => SNormal | SReturn => SReturn | _ => dc_outer tl end",
+        "  end.",
+        "(* is the call of do_remove after the demand loop reached? *)",
+        "Definition do_circuits_sweeps (ds : list (bool * list bool)) : bool :=",
+        "  match dc_outer ds with SReturn => false | _ => %s end." % reached,
+    ]
+
+
 def generate(repo=None):
     repo = repo or os.environ.get("VERIF_REPO", "/repo")
     com, cac, cry = _parse(repo, COMMUNITY), _parse(repo, CACHES), _parse(repo, CRYPTO)
@@ -159,10 +249,9 @@ def generate(repo=None):
     if sweep is None:
         raise Unsupported("do_circuits task registration not found")
     out.append("Definition SWEEP_INTERVAL : Z := %d." % sweep)
-    # do_circuits ends with self.do_remove()
+    # do_circuits: the control skeleton of the interval task (translated below: _do_circuits_skeleton)
     dc = find_function(com, "TunnelCommunity", "do_circuits")
-    if ast.unparse(dc.body[-1]) != "self.do_remove()":
-        raise Unsupported("do_circuits does not end with self.do_remove()")
+    skeleton = _do_circuits_skeleton(dc)
     # PING_INTERVAL (a float with one binary digit: emitted doubled)
     ping = None
     for n in tun.body:
@@ -224,6 +313,10 @@ def generate(repo=None):
     if ncp != "[CreatePayload.msg_id, CreatedPayload.msg_id]":
         raise Unsupported("NO_CRYPTO_PACKETS is not [create, created]: %s" % ncp)
     out.append("Definition NO_CRYPTO_PACKETS : list Z := [MSG_CREATE; MSG_CREATED].")
+    out.append("")
+
+    # ---- do_circuits: is do_remove reached, whatever create_circuit answers? ------------------------
+    out.extend(skeleton)
     out.append("")
 
     # ---- Circuit.state -------------------------------------------------------------------------
